@@ -306,6 +306,13 @@ def one_input(ctx, inp, cid, tmp, heavy=True):
                                       "mean": float(ro.mean_node_weight),
                                       "want_total": tw}, cid)
     if base is not None:
+        # clones made by Python itself
+        import copy as _copy
+        import pickle as _pickle
+        build("copy.copy", lambda: _copy.copy(base))
+        build("copy.deepcopy", lambda: _copy.deepcopy(base))
+        build("pickle-round-trip",
+              lambda: _pickle.loads(_pickle.dumps(base)))
         build("copy", base.copy)
         if not d:
             build("undirected_copy", base.undirected_copy, want_attr=False)
